@@ -888,7 +888,7 @@ impl TimeUtilities for DateTime {
 
         let new_nanos = set_hour(nanos, hour)?;
 
-        let (new_days, new_nanos) = remove_offset_from_dn(days, new_nanos, offset_seconds);
+        let (new_days, new_nanos) = try_remove_offset_from_dn(days, new_nanos, offset_seconds)?;
 
         Ok(Self {
             days: new_days,
@@ -904,7 +904,7 @@ impl TimeUtilities for DateTime {
 
         let new_nanos = set_minute(nanos, minute)?;
 
-        let (new_days, new_nanos) = remove_offset_from_dn(days, new_nanos, offset_seconds);
+        let (new_days, new_nanos) = try_remove_offset_from_dn(days, new_nanos, offset_seconds)?;
 
         Ok(Self {
             days: new_days,
@@ -920,7 +920,7 @@ impl TimeUtilities for DateTime {
 
         let new_nanos = set_second(nanos, second)?;
 
-        let (new_days, new_nanos) = remove_offset_from_dn(days, new_nanos, offset_seconds);
+        let (new_days, new_nanos) = try_remove_offset_from_dn(days, new_nanos, offset_seconds)?;
 
         Ok(Self {
             days: new_days,
@@ -936,7 +936,7 @@ impl TimeUtilities for DateTime {
 
         let new_nanos = set_milli(nanos, milli)?;
 
-        let (new_days, new_nanos) = remove_offset_from_dn(days, new_nanos, offset_seconds);
+        let (new_days, new_nanos) = try_remove_offset_from_dn(days, new_nanos, offset_seconds)?;
 
         Ok(Self {
             days: new_days,
@@ -952,7 +952,7 @@ impl TimeUtilities for DateTime {
 
         let new_nanos = set_micro(nanos, micro)?;
 
-        let (new_days, new_nanos) = remove_offset_from_dn(days, new_nanos, offset_seconds);
+        let (new_days, new_nanos) = try_remove_offset_from_dn(days, new_nanos, offset_seconds)?;
 
         Ok(Self {
             days: new_days,
@@ -968,7 +968,7 @@ impl TimeUtilities for DateTime {
 
         let new_nanos = set_nano(nanos, nano)?;
 
-        let (new_days, new_nanos) = remove_offset_from_dn(days, new_nanos, offset_seconds);
+        let (new_days, new_nanos) = try_remove_offset_from_dn(days, new_nanos, offset_seconds)?;
 
         Ok(Self {
             days: new_days,
